@@ -30,6 +30,7 @@ def _sm(rule, probes, quick=9000, thorough=400000):
         "assumptions": [
             "single caller thread (the class documents itself as not thread-safe)",
             "one in-state action per state-function call; state functions do not raise; external next_state() not generated",
+            "class layouts: single, base+leaf, base+mixin+leaf, diamond; redefinitions may change must_finish/next_state (not the duration); VERBOSE_LOGGING on in a quarter of the runs; an object of the base class may exist first; a dashboard may write the current_state topic",
             "clock = WPILib HAL simulation clock; half of the runs on a 1/64 s grid with exact float comparison, the rest at 1 us with a 1e-9 s tolerance and a 1e-7 s dead band at expiry instants",
         ],
     }
